@@ -6,11 +6,11 @@ from common import from_replay, to_replay  # noqa: F401
 PID = "C04"
 COQ_MODULE = "Prop_C04"
 THEOREMS = ['C04_leaves_get_ptrs', 'C04_lock_all_or_wait', 'C04_try_all_or_nothing', 'C04_scoped_call']
-CASE_MODULES = ["Monitors"]
+CASE_MODULES = ["Monitors", "Conc", "BMonitors"]
 CHECK_WITHOUT_PROOF = True
 TRUSTED = common.TRUSTED_COMMON
 ASSUMPTIONS = common.ASSUME_COMMON
-RULE = 'random API histories (1-3 threads, 4-14 calls, API-call-atomic) over a random universe of single locks, poisonable wrappers and collections of every kind / container / nesting depth <= 2 sharing leaves, with random holds of other threads present from the start; vocabulary: lock/try/scoped/scoped-try in both modes against pre-held members; observation = hold table, raw operations and closure markers per call; non-trivial = a refusal, a closure run or a blocked call; distinct = scenario text'
+RULE = 'random API histories (1-3 threads, 4-14 calls, API-call-atomic) over a random universe of single locks, poisonable wrappers and collections of every kind / container / nesting depth <= 2 sharing leaves, with random holds of other threads present from the start; vocabulary: lock/try/scoped/scoped-try in both modes against pre-held members; observation = hold table, raw operations and closure markers per call; non-trivial = a refusal, a closure run or a blocked call; distinct = scenario text; plus interleaved (Level B) programs of 2-4 threads at raw-operation granularity (as for C01 / C09, half of them with a retrying collection under contention), judged by the replaying monitor of BMonitors.v (holds per thread at every call return)'
 EXHAUSTIVE = {"quick": False, "thorough": False}
 classify = histprop.classify
 signature = histprop.signature
